@@ -177,6 +177,18 @@ def check(ctx, rep):
     st = [norm(s) for s in sp.body]
     rep.ob('page.rebound-to-active-page', 'active page = self._pages[apagenum]', 'self._apage = self._pages[apagenum]' in st and
            st.index('self._apage = self._pages[apagenum]') < st.index('self.graph_view.set_page(self._apage.pixels)'), repr(st), ctx.where(sp))
+    # the page number handed to Graphics.set_page is the one recorded as the *active* page
+    n_sp = 0
+    for fn in ctx.idx.functions('pcbasic/basic/display/'):
+        for c in own_nodes(fn):
+            if isinstance(c, ast.Call) and isinstance(c.func, ast.Attribute) and c.func.attr == 'set_page' and norm(c.func.value).endswith('graphics') and len(c.args) == 1:
+                n_sp += 1
+                arg = norm(c.args[0])
+                recorded = [norm(a.value) for a in own_nodes(fn) if isinstance(a, ast.Assign) and norm(a.targets[0]) == 'self.apagenum']
+                rep.ob('page.graphics-follow-active-page', '%s: graphics.set_page(%s) receives the active page' % (qualname(fn).split(':')[1], arg),
+                       arg == 'self.apagenum' or arg in recorded,
+                       'drawing statements would go to page `%s` while the active page is %s' % (arg, recorded or 'self.apagenum'), ctx.where(c))
+    rep.floor('page.graphics-follow-active-page', n_sp, 1, 'calls of Graphics.set_page')
     # ---- (iv) --------------------------------------------------------------------------
     cbs = ['view_', 'window_', '_pset_preset', 'line_', 'circle_', 'paint_', 'put_', 'get_', 'draw_']
     for name in cbs:
@@ -211,6 +223,8 @@ def variants(ctx):
         return lambda tree: f(mu.find_def(tree, f_name))
 
     return [
+        Va('graphics-follow-visible-page', 'break', D,
+           lambda tree: mu.replace_expr(mu.find_def(tree, 'Display.set_page'), mu.text_is('self.graphics.set_page(new_apagenum)'), 'self.graphics.set_page(new_vpagenum)'), expect='page.graphics-follow'),
         Va('pset-writes-page-directly', 'break', G,
            in_fn('Graphics._pset_preset', lambda fn: mu.replace_stmt(fn, mu.text_is('self.graph_view[y, x] = attr'), 'self._apage.pixels[y, x] = attr')), expect='gate.no-raw'),
         Va('box-fill-bypasses-gate', 'break', G,
